@@ -432,6 +432,14 @@ def run(ctx):
     cache_invalidation(ctx)
     answers_not_cached(ctx)
     members_filed(ctx)
+    # the document lists the interfaces getInterfaces() yields for THAT
+    # object's class: a per-class memo of them must be looked up in the
+    # class's own __dict__ (a subclass otherwise serves its parent's list)
+    from .common import class_memo_not_inherited
+    class_memo_not_inherited(
+        ctx, 'C15.D5', ('objects',),
+        'the introspection document of a subclass lacks the interfaces the '
+        'subclass adds')
     ctx.floor('C15.D5', 4)
     ctx.floor('C15.D1', 8)
     ctx.floor('C15.D2', 4)
